@@ -76,7 +76,7 @@ def _data_cell(rng, htype, spine, p_null=0.15, chords=True, rest_in_chord=0.03):
 
 def gen_doc(rng, *, kern_only=False, max_spines=4, splits=True, core=False, comments=True, measures=None,
             mid_signatures=True, opening_barline=None, final_barline=None, chords=True, free_headers=False,
-            hidden_barlines=False, force_clef=False, plain_acc=False, rest_in_chord=0.03, clef_in_split=0.0, nested=0.5, early_end=0.0, types=None, twins=0.15, bboxes=0.1, blanks=0.08, second_clef_row=0.0, empty_measures=0.0):
+            hidden_barlines=False, force_clef=False, plain_acc=False, rest_in_chord=0.03, clef_in_split=0.0, nested=0.5, early_end=0.0, types=None, twins=0.15, bboxes=0.1, blanks=0.08, second_clef_row=0.0, empty_measures=0.0, tandem_after_barline=0.0):
     """core=True: signatures only before the first measure, splits re-joined before the next barline (C08's core)"""
     g = GenDoc()
     tokens.PLAIN_ACC = plain_acc
@@ -219,6 +219,11 @@ def gen_doc(rng, *, kern_only=False, max_spines=4, splits=True, core=False, comm
             if empty_measures and rng.random() < empty_measures:
                 barline()                       # an empty measure: two barline lines in a row
                 g.flags.add('empty-measure')
+            if tandem_after_barline and rng.random() < tandem_after_barline:
+                # a tempo mark, a cue mark or a key designation right after the barline: interpretations that are no
+                # signatures although they begin like one (*MM.. / *M.., *cue / *clef.., *C: )
+                interp_row(['*MM120', '*cue', '*C:', '*a:', '*MM120', '*cue'])
+                g.flags.add('tandem-after-barline')
         elif rng.random() < 0.3:
             g.flags.add('pickup')
         for _ in range(rng.randint(1, 3)):
